@@ -32,6 +32,7 @@ func init() {
 		"foreign":       replayer(c03EvalForeign),
 		"window":        replayer(c03EvalWindow),
 		"fingerprint":   replayer(c03EvalFP),
+		"calls":         replayer(c03EvalCalls),
 	}})
 }
 
@@ -918,6 +919,7 @@ func runC03(c *mc.Ctx) {
 	runC03Constants(c)
 	runC03Case(c)
 	runC03Fingerprint(c)
+	runC03Calls(c)
 }
 
 func pairFromIndex(pi, L int) (int, int) {
